@@ -76,6 +76,16 @@ CHECKS = {
    "Whenever yaccgo generates a file without reporting an error the file must compile (Go: go build of all packages) or load (TypeScript under Node after type erasure).",
    "Trusted: Go toolchain, Node 20, the type eraser. TypeScript type correctness is not checked (no tsc in the image). Domain: token names that are not reserved/predeclared words nor skeleton names.",
    "3/C16"),
+ "C10": ("exploration",
+   "deviation-bounded exhaustive enumeration of textual renderings: each abstract specification is a sequence of atoms; every gap takes every separator (blank, newline, tab, block comment, line comment, mixed, empty where allowed) one gap at a time, all gaps uniformly, and pairs of gaps (thorough), with and without ';' and with '|' or repeated left sides; what the real front end hands to table construction is compared field by field with the abstract specification",
+   "For every rendering explored, rules in order (with %prec and action bodies), start symbol, token numbers, tags, precedence levels and associativity, prologue, %union body and epilogue must equal the abstract specification, and the generated Go/TypeScript file must carry prologue, union, actions and epilogue.",
+   "Domain: ASCII, no carriage returns, one trailing action per alternative, balanced braces in actions. Prologue/union compared modulo surrounding whitespace.",
+   "3/C10"),
+ "C11": ("exploration",
+   "exhaustive enumeration of token declaration mixes (ordered, up to 3/4 tokens from a 20-option menu: automatic, tagged, explicit numbers, declared only by %left, declared twice, character literals declared / only by precedence / only used) through the real front end; codes checked in-process under canonical and reversed map order; constants and translate(c) for every c in [-2,max+2] checked on compiled Go and loaded TypeScript programs for a fixed stride of the mixes",
+   "Literal = character code, explicit number kept, all codes distinct and never -1/0; `const NAME = n` equals the code for every named token (no other constants); translate maps each code to its own symbol id, -1 to the end marker and every other integer to the error column.",
+   "Assumes the statement's proviso (explicit numbers distinct from each other and from literal codes used).",
+   "3/C11"),
 }
 
 PENDING = {}
